@@ -166,3 +166,87 @@ end SignaloModel.Registry
 
 #print axioms SignaloModel.Registry.max_registry_correct
 #print axioms SignaloModel.Registry.min_registry_correct
+
+namespace SignaloModel.Registry
+open SignaloModel SignaloModel.Deque
+
+section bounds
+variable {α : Type} [LinearOrder α] [Add α] [Sub α] [Mul α] [Div α] [Neg α] [OfNat α 0] [OfNat α 1]
+  [BEq α] [Median.POrd α]
+
+/-- the bounds filter runs the min filter and the max filter side by side on the same samples -/
+theorem bounds_run (N : Nat) (xs : List α) :
+    ∀ (smin smax : DS α),
+      (St.bounds N smin smax).run (sing xs) =
+        (stepRunO (fun s x => Deque.step ltB N (some usizeMax) s x) smin xs).bind (fun rmin =>
+          (stepRunO (fun s x => Deque.step gtB N (some usizeMax) s x) smax xs).map (fun rmax =>
+            (St.bounds N rmin.1 rmax.1, List.zipWith (fun a b => [a, b]) rmin.2 rmax.2))) := by
+  induction xs with
+  | nil => intro smin smax; rfl
+  | cons x xs ih =>
+    intro smin smax
+    simp only [sing_cons, St.run, St.filter, stepRunO, Option.bind_eq_bind, Option.pure_def]
+    cases h1 : Deque.step ltB N (some usizeMax) smin x with
+    | none => simp
+    | some r1 =>
+      cases h2 : Deque.step gtB N (some usizeMax) smax x with
+      | none =>
+        simp only [Option.bind_some, Option.bind_none]
+        cases stepRunO (fun s x => Deque.step ltB N (some usizeMax) s x) r1.1 xs <;> simp
+      | some r2 =>
+        simp only [Option.bind_some, ih r1.1 r2.1]
+        cases stepRunO (fun s x => Deque.step ltB N (some usizeMax) s x) r1.1 xs with
+        | none => simp
+        | some q1 =>
+          cases stepRunO (fun s x => Deque.step gtB N (some usizeMax) s x) r2.1 xs with
+          | none => simp
+          | some q2 => simp
+
+/-- **C04 (bounds) at registry level**: output `k` is the (smallest, largest) pair of the last `min (k+1) N` samples,
+and the filter never panics -/
+theorem bounds_registry_correct (N : Nat) (hN : 1 ≤ N) (hM : N + 1 ≤ usizeMax) (xs : List α) :
+    ∃ s' ys, (Cfg.bounds N : Cfg α).init.run (sing xs) = some (s', ys) ∧ ys.length = xs.length ∧
+      ∀ k a b, ys[k]? = some [a, b] →
+        Spec.extremum ltB (Spec.window N (xs.take (k + 1))) = some a ∧
+        Spec.extremum gtB (Spec.window N (xs.take (k + 1))) = some b := by
+  obtain ⟨smin', ysmin, hmin, hlmin, hkmin⟩ := min_registry_correct (α := α) N hN hM xs
+  obtain ⟨smax', ysmax, hmax, hlmax, hkmax⟩ := max_registry_correct (α := α) N hN hM xs
+  -- unfold the two single runs into their partial folds
+  have h1 := run_of_stepO (St.min N) (fun s x => Deque.step ltB N (some usizeMax) s x)
+    (by intro s x; simp only [St.filter]; cases Deque.step ltB N (some usizeMax) s x <;> simp) (Deque.init : DS α) xs
+  have h2 := run_of_stepO (St.max N) (fun s x => Deque.step gtB N (some usizeMax) s x)
+    (by intro s x; simp only [St.filter]; cases Deque.step gtB N (some usizeMax) s x <;> simp) (Deque.init : DS α) xs
+  simp only [Cfg.init] at hmin hmax
+  rw [hmin] at h1
+  rw [hmax] at h2
+  cases hr1 : stepRunO (fun s x => Deque.step ltB N (some usizeMax) s x) (Deque.init : DS α) xs with
+  | none => simp [hr1] at h1
+  | some r1 =>
+    cases hr2 : stepRunO (fun s x => Deque.step gtB N (some usizeMax) s x) (Deque.init : DS α) xs with
+    | none => simp [hr2] at h2
+    | some r2 =>
+      simp only [hr1, Option.map_some, Option.some.injEq, Prod.mk.injEq] at h1
+      simp only [hr2, Option.map_some, Option.some.injEq, Prod.mk.injEq] at h2
+      have e1 : r1.2 = ysmin := (sing_injective h1.2).symm
+      have e2 : r2.2 = ysmax := (sing_injective h2.2).symm
+      refine ⟨St.bounds N r1.1 r2.1, List.zipWith (fun a b => [a, b]) r1.2 r2.2, ?_, ?_, ?_⟩
+      · simp only [Cfg.init]
+        rw [bounds_run, hr1, hr2]; rfl
+      · simp [e1, e2, hlmin, hlmax]
+      · intro k a b hk
+        rw [e1, e2, List.getElem?_zipWith] at hk
+        cases ha : ysmin[k]? with
+        | none => simp [ha] at hk
+        | some a' =>
+          cases hb : ysmax[k]? with
+          | none => simp [ha, hb] at hk
+          | some b' =>
+            simp only [ha, hb, Option.map_some, Option.bind_some, Option.some.injEq, List.cons.injEq, and_true] at hk
+            obtain ⟨rfl, rfl⟩ := hk
+            exact ⟨hkmin k a' ha, hkmax k b' hb⟩
+
+end bounds
+
+end SignaloModel.Registry
+
+#print axioms SignaloModel.Registry.bounds_registry_correct
